@@ -281,9 +281,12 @@ fn exec_iv(st: &mut State, name: &str, t: &[&str]) -> String {
     }
 }
 
-pub fn iter_call_fwd_u64<I: Iterator<Item = u64> + ExactSizeIterator>(it: &mut I, c: &str) -> String {
+pub fn iter_call_fwd_u64<I: Iterator<Item = u64> + ExactSizeIterator + Clone>(it: &mut I, c: &str) -> String {
     let f = |x: Option<u64>| match x { Some(v) => format!("s{}", v), None => "-".to_string() };
     match c.as_bytes()[0] {
+        b'c' => format!("c{}", it.clone().count()),
+        b'L' => format!("L{}", f(it.clone().last())),
+        b'h' => { let (lo, hi) = it.size_hint(); format!("h{},{}", lo, hi.map(|x| x.to_string()).unwrap_or("?".to_string())) },
         b'n' => f(it.next()),
         b'N' => f(it.nth(parse_usize(&c[1..]))),
         b'l' => format!("l{}", it.len()),
@@ -291,9 +294,12 @@ pub fn iter_call_fwd_u64<I: Iterator<Item = u64> + ExactSizeIterator>(it: &mut I
     }
 }
 
-pub fn iter_call_u64<I: Iterator<Item = u64> + DoubleEndedIterator + ExactSizeIterator>(it: &mut I, c: &str) -> String {
+pub fn iter_call_u64<I: Iterator<Item = u64> + DoubleEndedIterator + ExactSizeIterator + Clone>(it: &mut I, c: &str) -> String {
     let f = |x: Option<u64>| match x { Some(v) => format!("s{}", v), None => "-".to_string() };
     match c.as_bytes()[0] {
+        b'c' => format!("c{}", it.clone().count()),
+        b'L' => format!("L{}", f(it.clone().last())),
+        b'h' => { let (lo, hi) = it.size_hint(); format!("h{},{}", lo, hi.map(|x| x.to_string()).unwrap_or("?".to_string())) },
         b'n' => f(it.next()),
         b'b' => f(it.next_back()),
         b'N' => f(it.nth(parse_usize(&c[1..]))),
